@@ -120,3 +120,85 @@ example {G : Type} (step : G → List (Input × InputStatus) → G) (g0 : G) (cs
   ⟨WInvD_of_WInv step g0 w.1 w.2 h.1.1 hdf, h.2⟩
 
 end Ggrs
+
+namespace Ggrs.P2P
+
+theorem comparePending_fold (lastConfirmed : Frame) (hist : List (Int × Nat)) (peerAddr : Nat) :
+    ∀ (pending : List (Int × Nat)) (acc : List Event × List Int),
+      (pending.foldl (fun acc p =>
+        let r := compareOne lastConfirmed hist peerAddr p
+        (acc.1 ++ r.1.toList, if r.2 then acc.2 ++ [p.1] else acc.2)) acc).1 =
+      acc.1 ++ pending.flatMap fun p => (compareOne lastConfirmed hist peerAddr p).1.toList := by
+  intro pending
+  induction pending with
+  | nil => intro acc; simp
+  | cons a rest ih =>
+    intro acc
+    simp only [List.foldl_cons, List.flatMap_cons]
+    rw [ih]
+    simp [List.append_assoc]
+
+/-- **C09, the comparison is exact.** In the order of the pending reports, one event per report that
+`compareOne` flags: a report of a frame below the last confirmed frame whose local checksum is on
+record and differs. -/
+theorem C09_compare_exact (lastConfirmed : Frame) (hist : List (Int × Nat)) (peerAddr : Nat) (pending : List (Int × Nat)) :
+    (comparePending lastConfirmed hist peerAddr pending).1 =
+      pending.flatMap fun p => (compareOne lastConfirmed hist peerAddr p).1.toList := by
+  unfold comparePending
+  rw [comparePending_fold]
+  rfl
+
+/-- **C09, no false alarm at the comparison.** If every pending report agrees with the local checksum
+on record for its frame (as it does for two deterministic games in the same state:
+`C09_reports_are_replay`), nothing is raised. -/
+theorem C09_compare_no_false_alarm (lastConfirmed : Frame) (hist : List (Int × Nat)) (peerAddr : Nat)
+    (pending : List (Int × Nat))
+    (hagree : ∀ p ∈ pending, ∀ lc, alookup p.1 hist = some lc → lc = p.2) :
+    (comparePending lastConfirmed hist peerAddr pending).1 = [] := by
+  rw [C09_compare_exact, List.flatMap_eq_nil_iff]
+  intro p hp
+  unfold compareOne
+  split
+  · rfl
+  · split
+    · rfl
+    · rename_i lc hl
+      have := hagree p hp lc hl
+      simp [this]
+
+/-- **C09, a real difference is reported, with the two real checksums.** A pending report for a frame
+below the last confirmed frame whose local checksum is on record and differs raises
+`DesyncDetected` for that frame, carrying exactly the local checksum on record and the checksum the
+peer reported. -/
+theorem C09_compare_detects (lastConfirmed : Frame) (hist : List (Int × Nat)) (peerAddr : Nat)
+    (pending : List (Int × Nat)) (rf : Int) (rc lc : Nat) (hp : (rf, rc) ∈ pending) (hlt : rf < lastConfirmed)
+    (hl : alookup rf hist = some lc) (hne : lc ≠ rc) :
+    Event.desyncDetected rf lc rc peerAddr ∈ (comparePending lastConfirmed hist peerAddr pending).1 := by
+  rw [C09_compare_exact, List.mem_flatMap]
+  refine ⟨(rf, rc), hp, ?_⟩
+  have hge : ¬ rf ≥ lastConfirmed := by omega
+  simp [compareOne, hge, hl, hne]
+
+/-- Every event the comparison raises is a `DesyncDetected` for a pending report that really differs
+from the local checksum on record. -/
+theorem C09_compare_sound (lastConfirmed : Frame) (hist : List (Int × Nat)) (peerAddr : Nat)
+    (pending : List (Int × Nat)) (ev : Event) (h : ev ∈ (comparePending lastConfirmed hist peerAddr pending).1) :
+    ∃ rf rc lc, (rf, rc) ∈ pending ∧ rf < lastConfirmed ∧ alookup rf hist = some lc ∧ lc ≠ rc ∧
+      ev = Event.desyncDetected rf lc rc peerAddr := by
+  rw [C09_compare_exact, List.mem_flatMap] at h
+  obtain ⟨⟨rf, rc⟩, hp, hev⟩ := h
+  unfold compareOne at hev
+  simp only at hev
+  split at hev
+  · simp at hev
+  · rename_i hge
+    split at hev
+    · simp at hev
+    · rename_i lc hl
+      split at hev
+      · rename_i hne
+        simp only [Option.toList_some, List.mem_singleton] at hev
+        exact ⟨rf, rc, lc, hp, by omega, hl, by simpa using hne, hev⟩
+      · simp at hev
+
+end Ggrs.P2P
